@@ -379,9 +379,23 @@ def run_case(rng, tier, case):
                 try:
                     b6 = build(spec)
                     sf_ = b6.portfolio.setup_split_optim_problem(b6.prices, b6.timegrid, interval_size=isz, fix_time_window=mk_fw())
-                except Exception:
+                except Exception as e7:
                     sf_ = None
+                    if not isinstance(e7, AssertionError):
+                        # freshly built objects: the plain set-up accepts this window, the split set-up (same documented argument) must as well
+                        try:
+                            b7 = build(spec); b7.portfolio.setup_optim_problem(b7.prices, b7.timegrid, fix_time_window=mk_fw()); b8 = build(spec)
+                            b8.portfolio.setup_split_optim_problem(b8.prices, b8.timegrid, interval_size=isz)
+                            case.check('purity.split_setup_with_date_window_works_on_fresh_objects', False, interval=isz, error='%s: %s' % (type(e7).__name__, str(e7)[:160]))
+                        except Exception:
+                            pass
                 if sf_ is not None:
+                    gq = other_grid(rng, spec)
+                    if gq is not None:
+                        try:          # (the portfolio has last been used on another horizon)
+                            P.setup_optim_problem({k: np.asarray(v) for k, v in gen.gen_prices(rng, len(gen.grid_points(gq)), keys).items()}, build_timegrid(gq))
+                        except Exception:
+                            pass
                     try:
                         su_ = P.setup_split_optim_problem(b.prices, build_timegrid(spec['grid']), interval_size=isz, fix_time_window=mk_fw())
                         dsu = None
